@@ -165,7 +165,7 @@ def model_outcome(vals, schema, key, value, value_list, scalar):
 		return {"outcome": "typefail", "classes": tuple(classes)}
 	if "either" in moved:
 		return {"outcome": "either", "expected": out, "classes": tuple(classes)}
-	return {"outcome": "ok", "expected": out, "kind": kind, "nullable": nullable or any(x is None for x in news), "classes": tuple(classes)}
+	return {"outcome": "ok", "expected": out, "kind": kind, "nullable": nullable or any(x is None for x in news), "classes": tuple(classes), "idx": list(idx)}
 
 
 def judge_vector(chk, v, before, fp_before, o, model, label, spec, stratum):
@@ -223,6 +223,14 @@ def judge_vector(chk, v, before, fp_before, o, model, label, spec, stratum):
 			chk.fail("a wider compatible value promotes the column (and nothing else changes its kind)", f"assign/kind/{label}/exp={model['kind'].__name__}/got={sch[0].__name__}", f"{spec!r}: schema {v.schema()!r}")
 		elif model["nullable"] and not sch[1]:
 			chk.fail("None is accepted and makes the column nullable", f"assign/not-nullable-after-none/{label}", f"{spec!r}: schema {v.schema()!r}")
+		elif "promote" in (model.get("classes") or ()) and sch[0] is not before[1][0] and model.get("idx") is not None:
+			# a promotion converts the elements that were already there (those not written by this assignment) to the new kind
+			written = set(model["idx"])
+			for i, x in enumerate(after[0]):
+				if i not in written and x is not None and type(x) is not sch[0] and type(before[0][i]) in (bool, int, float, date):
+					chk.fail("a wider compatible value promotes the whole column with existing elements converted", f"assign/existing-element-not-converted/{label}/{type(x).__name__}-in-{sch[0].__name__}",
+						f"{spec!r}: after the promotion to {sch[0].__name__} element {i} is still {x!r} ({type(x).__name__}); vector {short(after[0], 160)}")
+					return
 		elif "promote" in (model.get("classes") or ()):
 			# existing elements converted
 			if any(x is not None and type(x) is not sch[0] and not M.is_sub(M.exact_kind(x)) for x in after[0] if classify(sch[0], x) == "narrower"):
@@ -270,6 +278,17 @@ def build_value(form, payload):
 def run_assign(chk, spec):
 	vals = list(spec["values"])
 	v = Vector(list(vals), name=spec.get("name"))
+	original = None
+	if spec.get("duplicate"):
+		# the vector written is a copy.copy / copy.deepcopy duplicate of one that stays alive: an ordinary, separate vector
+		import copy
+		original = v
+		orig_snap = snapshot(original)
+		d = call(copy.copy if spec["duplicate"] == "copy" else copy.deepcopy, v)
+		if not d.ok or not isinstance(d.value, Vector):
+			chk.skip("duplicate-unavailable")
+			return
+		v = d.value
 	if spec.get("cached"):
 		call(v.fingerprint)
 	before = snapshot(v)
@@ -284,6 +303,8 @@ def run_assign(chk, spec):
 	label = f"{spec['key'][0]}/{spec['vform']}"
 	judge_vector(chk, v, before, fpb, o, model, label, spec, "assign-fault" if model["outcome"] in ("fail", "typefail") else "assign-ok")
 	chk.observe(v, "setitem")
+	if original is not None and snapshot(original) != orig_snap:
+		chk.fail("the vector holds exactly what Python list assignment would produce (and a duplicate's write stays in the duplicate)", f"assign/duplicate-write-reached-original/{spec['duplicate']}", f"{spec!r}: original changed {short(orig_snap, 120)} -> {short(snapshot(original), 120)}")
 
 
 def run_iterfault(chk, spec):
@@ -618,7 +639,34 @@ def run_selfmask(chk, spec):
 			f"{spec!r}: table now {got}, list model {model}")
 
 
-RUNNERS = {"selfmask": run_selfmask, "sequence": run_sequence, "overflow": run_overflow, "assign": run_assign, "iterfault": run_iterfault, "table_assign": run_table_assign, "rename": run_rename}
+def run_badmask(chk, spec):
+	"""a boolean row mask of the wrong length in a table assignment that targets several columns: rejected, nothing written"""
+	cols = [list(c) for c in spec["cols"]]
+	n = len(cols[0])
+	t = Table([Vector(list(c), name=f"c{j}") for j, c in enumerate(cols)])
+	bits = list(spec["mask"])
+	mask = Vector(bits) if spec["as"] == "vector" else bits
+	targets = spec["targets"]
+	key_cols = [f"c{j}" for j in targets] if spec["colform"] == "names" else list(targets)
+	value = spec["value"]
+	if value == "table":
+		k = sum(1 for b in bits if b)
+		value = Table([Vector([70 + j] * max(k, 1), name=f"s{j}") for j in targets])
+	elif value == "lists":
+		k = sum(1 for b in bits if b)
+		value = [[80 + j] * k for j in targets]
+	before = [list(c._underlying) for c in t.cols()]
+	o = call(t.__setitem__, (mask, key_cols), value)
+	chk.judged("table-assign", ("badmask", len(bits) - n, spec["as"], len(targets), spec["colform"], type(spec["value"]).__name__))
+	got = [list(c._underlying) for c in t.cols()]
+	if o.ok:
+		chk.fail("an invalid assignment is rejected", f"table-assign/wrong-length-mask-accepted/{'longer' if len(bits) > n else 'shorter'}/{spec['as']}",
+			f"{spec!r}: a row mask of length {len(bits)} on {n} rows was accepted; table {before} -> {got}")
+	elif got != before:
+		chk.fail("an assignment that fails for any reason leaves the table as it was", f"table-assign/wrong-length-mask/not-atomic", f"{spec!r}: raised {o!r}; {before} -> {got}")
+
+
+RUNNERS = {"badmask": run_badmask, "selfmask": run_selfmask, "sequence": run_sequence, "overflow": run_overflow, "assign": run_assign, "iterfault": run_iterfault, "table_assign": run_table_assign, "rename": run_rename}
 
 COLKINDS = ["bool", "int", "float", "complex", "str", "date", "datetime", "object", "bytes"]
 
@@ -716,6 +764,29 @@ def run(chk):
 				for targets in ([order[0], order[1]], [order[1], order[0]], [order[0], order[1], order[2]], [order[2], order[0]], [order[1]]):
 					chk.case("selfmask", {"kind": kind, "cols": cols3, "names": nm, "selector": order[0], "targets": targets, "value": value,
 						"via": rng.choice(["cols", "name"]), "colform": rng.choice(["names", "ints", "tuple"])}, "table-assign-self-selector")
+	for n in (2, 3):
+		for delta in (-1, 1, 2):
+			for rep in range(2 if chk.quick() else 8):
+				m = n + delta
+				bits = [rng.random() < 0.5 for _ in range(m)]
+				if delta > 0 and rng.random() < 0.5:
+					bits[n:] = [False] * delta      # the excess flags are all False
+				if not any(bits[:n]):
+					bits[0] = True
+				for targets in ([0, 1], [1, 0], [0, 1, 2], [2, 0]):
+					chk.case("badmask", {"cols": [[rng.choice([1, 2, 3]) for _ in range(n)] for _ in range(3)], "mask": bits, "as": rng.choice(["list", "vector"]), "targets": targets,
+						"colform": rng.choice(["names", "ints"]), "value": rng.choice([0, None, "table", "lists"])}, "table-assign-bad-mask")
+	# columns whose kind was widened by inference and still hold narrower elements, then a write that promotes further
+	for vals, wide in (([1.5, 2, 3], 1j), ([1.5, True, 3], 1 + 1j), ([2, True, 5], 2.5), ([2, True, 5], 1j), ([True, 4], 0.5), ([1j, 2.5, 3], None), ([V.datetime(2020, 1, 1, 5), date(2020, 1, 2)], None)):
+		if wide is None:
+			continue
+		for keyspec in (("int", 0), ("slice", (0, 1, None)), ("idx-list", [0]), ("mask-list", [True] + [False] * (len(vals) - 1))):
+			chk.case("assign", {"values": vals, "key": keyspec, "vform": "scalar" if keyspec[0] in ("int", "mask-list") else "list", "value": wide if keyspec[0] in ("int", "mask-list") else [wide]}, "assign-promote-mixed")
+	# duplicates made with the copy module are ordinary vectors
+	for dup in ("copy", "deepcopy"):
+		for vals in ([1, 2, 3], ["p", "q"], [1.5, None]):
+			for keyspec, value, vform in ((("int", 0), vals[-1], "scalar"), (("slice", (None, None, None)), list(reversed(vals)), "list"), (("idx-list", [0]), [vals[-1]], "list"), (("mask-list", [True] + [False] * (len(vals) - 1)), vals[-1], "scalar")):
+				chk.case("assign", {"values": vals, "key": keyspec, "vform": vform, "value": value, "duplicate": dup}, "assign-duplicate")
 	huge = [10 ** 400, -(10 ** 400), 2 ** 1024]
 	for h in huge:
 		for vals in ([h, 1], [1, h, None], [h]):
